@@ -2,3 +2,4 @@ import AnnVerif.Model.Basic
 import AnnVerif.Model.Merkle
 import AnnVerif.Props.C17
 import AnnVerif.Props.C15
+import AnnVerif.Props.C16
